@@ -101,7 +101,7 @@ pub fn run() -> i32 {
     let mut r = Report::new("C04");
     let segs = segment_universe(r.thorough());
     let ops = all_ops();
-    r.rule = format!("one-segment words over {} segments ({}) x {} rules: `[] > [±F]` (52), `[±F] > [tone:7]` probes (52), `[±node]` set/probe for lab/cor/dor/phr/place (19), 7 outputs that must be errors, `[αF] > [αG]` and `[αF] > [-αG]` for all 26x26 pairs (1352); each result compared structurally with a bit-level reference model. Non-trivial = the model predicts a change or a firing probe.", segs.len(), if r.thorough() { "365 bases + every distinct base+one-diacritic bundle the parser accepts" } else { "the 365 base phones" }, ops.len());
+    r.rule = format!("one-segment words over {} segments ({}) x {} rules: `[] > [±F]` (52), `[±F] > [tone:7]` probes (52), `[±node]` set/probe for lab/cor/dor/phr/place (19), 7 outputs that must be errors, `[αF] > [αG]` and `[αF] > [-αG]` for all 26x26 pairs (1352); each result compared structurally with a bit-level reference model; plus `[αF, ±G] > [-αF]` for 9x8x2 feature pairs on every word of <= 3 segments over p,b,t,a,m without long segments (the alpha must be bound afresh at every position). Non-trivial = the model predicts a change or a firing probe.", segs.len(), if r.thorough() { "365 bases + every distinct base+one-diacritic bundle the parser accepts" } else { "the 365 base phones" }, ops.len());
     r.assumptions.push("reference model: harness/src/model.rs, written from the Segment/Place rustdoc and doc.md §Distinctive Features".into());
     struct Acc { evals: u64, nontrivial: u64, viols: Vec<Viol>, states: std::collections::BTreeSet<u64>, fired: u64 }
     let mut tot = Acc { evals: 0, nontrivial: 0, viols: vec![], states: Default::default(), fired: 0 };
@@ -126,6 +126,34 @@ pub fn run() -> i32 {
             }
         }
     }, |a| { tot.evals += a.evals; tot.nontrivial += a.nontrivial; tot.viols.extend(a.viols); tot.states.extend(a.states); tot.fired += a.fired; });
+    // ---- box 2: alphas in multi-condition matrices on multi-segment words: `[αF, vG] > [-αF]` applies to every
+    // segment that has G = v and a defined F, independently of its neighbours (the alpha is per application)
+    let inv: Vec<SegBits> = ["p", "b", "t", "a", "m"].iter().map(|t| seg(t)).collect();
+    let words: Vec<CW> = word_space(&inv, 3).into_iter().filter(|w| !has_adjacent_equal(w)).collect();
+    let fsub: Vec<usize> = vec![0, 1, 2, 3, 6, 11, 15, 16, 20]; // cons son syll cont nasal voice round ant high
+    let mut pairs: Vec<(usize, usize, bool)> = vec![];
+    for f in &fsub { for g in &fsub { if f != g { for v in [true, false] { pairs.push((*f, *g, v)); } } } }
+    let mut t2 = Acc { evals: 0, nontrivial: 0, viols: vec![], states: Default::default(), fired: 0 };
+    par_fold(pairs.len(), 2, || Acc { evals: 0, nontrivial: 0, viols: vec![], states: Default::default(), fired: 0 }, |i, a| {
+        let (f, g, v) = pairs[i];
+        let text = format!("[α{}, {}{}] > [-α{}]", FEATS[f].0, if v { "+" } else { "-" }, FEATS[g].0, FEATS[f].0);
+        let Out::Ok(Ok(compiled)) = guarded(5_000_000, || av::compile(&[group(&[&text])])) else { a.viols.push(Viol { key: format!("compile|{}", text), desc: format!("`{}` does not compile", text), case: json!({"rule": text}) }); return; };
+        for w in &words {
+            let mut e = w.clone();
+            for sy in e.iter_mut() { for b in sy.segs.iter_mut() { if model::feat(*b, g) == Some(v) { if let Some(x) = model::feat(*b, f) { *b = model::set_feat(*b, f, !x); } } } }
+            if has_adjacent_equal(&e) { continue; }
+            a.evals += 1;
+            match guarded(200_000, || av::apply_group(&compiled, 0, word_of(w)).map(|x| cw_of(&x))) {
+                Out::Ok(Ok(got)) if got == e => { if e != *w { a.nontrivial += 1; } a.states.insert(hash64(&got)); }
+                Out::Ok(Ok(got)) => a.viols.push(Viol { key: format!("{}|{}", text, show_cw(w)), desc: format!("`{}` on /{}/: every segment with {}{} flips {}: model /{}/, implementation /{}/", text, show_cw(w), if v { "+" } else { "-" }, FEATS[g].0, FEATS[f].0, show_cw(&e), show_cw(&got)), case: json!({"rule2": text, "word": cw_json(w), "expected": cw_json(&e)}) }),
+                Out::Ok(Err(er)) => a.viols.push(Viol { key: format!("{}|{}", text, show_cw(w)), desc: format!("`{}` on /{}/: error {:?}", text, show_cw(w), er), case: json!({"rule2": text, "word": cw_json(w), "expected": cw_json(&e)}) }),
+                o => a.viols.push(Viol { key: format!("crash|{}", text), desc: o.crash_desc().unwrap(), case: json!({"rule2": text, "word": cw_json(w), "expected": cw_json(&e)}) }),
+            }
+        }
+    }, |a| { t2.evals += a.evals; t2.nontrivial += a.nontrivial; t2.viols.extend(a.viols); t2.states.extend(a.states); });
+    r.boxes.push(json!({"box": "alpha + second condition on multi-segment words", "rules": pairs.len(), "words": words.len(), "cases": t2.evals, "model_predicts_change": t2.nontrivial}));
+    r.guard(t2.nontrivial > 1000, "box 2: more than 1000 cases change the word");
+    tot.evals += t2.evals; tot.nontrivial += t2.nontrivial; tot.viols.extend(t2.viols); tot.states.extend(t2.states);
     r.evaluations = tot.evals; r.transitions = tot.evals; r.validated = tot.evals; r.nontrivial = tot.nontrivial;
     r.states = tot.states;
     r.boxes.push(json!({"box": "ops x segments", "ops": ops.len(), "segments": segs.len(), "cases": tot.evals, "model_predicts_change_or_fire": tot.nontrivial}));
@@ -139,6 +167,11 @@ pub fn run() -> i32 {
 }
 
 pub fn replay(case: &Value) -> Result<String, String> {
+    if let Some(text) = case["rule2"].as_str() {
+        let w = cw_from_json(&case["word"]).ok_or("word")?; let e = cw_from_json(&case["expected"]).ok_or("expected")?;
+        let c = match guarded(5_000_000, || av::compile(&[group(&[text])])) { Out::Ok(Ok(c)) => c, o => return Err(format!("compile failed: {:?}", o.crash_desc())) };
+        return match guarded(200_000, || av::apply_group(&c, 0, word_of(&w)).map(|x| cw_of(&x))) { Out::Ok(Ok(g)) if g == e => Ok("agrees with the model".into()), Out::Ok(Ok(g)) => Err(format!("model /{}/, implementation /{}/", show_cw(&e), show_cw(&g))), Out::Ok(Err(x)) => Err(format!("{:?}", x)), o => Err(o.crash_desc().unwrap()) };
+    }
     let text = case["rule"].as_str().ok_or("no rule")?.to_string();
     let ops = all_ops();
     let op = ops.iter().find(|o| rule_text(o) == text).ok_or("unknown op")?;
